@@ -106,6 +106,9 @@ func Open(dir string, opts Options) (result Log, err error) {
 	default:
 		switch {
 		case opts.Recover:
+			if segments, err = segment.RemoveSuperseded(segments, params); err != nil {
+				return nil, fmt.Errorf("open recover: %w", err)
+			}
 			head := segments[len(segments)-1]
 			if err := head.Recover(params); err != nil {
 				return nil, fmt.Errorf("open recover: %w", err)
